@@ -236,6 +236,11 @@ def run_job(job):
     except RecursionError:
         out["undecided"] = "recursion limit"
         out.setdefault("target", str(key))
+    except (AttributeError, TypeError, KeyError, IndexError, ValueError, z3.Z3Exception) as ex:
+        # the executor met a construct its value model does not cover: the function is outside the subset
+        tb = traceback.extract_tb(sys.exc_info()[2])[-1]
+        out["undecided"] = "out-of-subset: executor limitation (%s: %s at %s:%d)" % (type(ex).__name__, ex, os.path.basename(tb.filename), tb.lineno)
+        out.setdefault("target", str(key))
     except Exception:
         out["error"] = traceback.format_exc()
         out.setdefault("target", str(key))
